@@ -244,7 +244,18 @@ def st_tables(ctx):
 def st_normalize(ctx):
     """Beyond the list (DESIGN section 10): the normalisation interpreter is bound as well."""
     prefix = ctx.path("st", "nz")
-    ctx.driver_json(["normalize-run", "--out-prefix", prefix, "--shards", 1, "--seed", ctx.seed, "--reps", 1, "--repo", core.REPO])
+    rp = ctx.path("st", "res.ndjson")
+    ctx.driver_json(["normalize-run", "--out-prefix", prefix, "--shards", 1, "--seed", ctx.seed, "--reps", 1, "--repo", core.REPO, "--resolve-out", rp])
+    rr = load(rp)[:120]
+    expect_clean(ctx, "normalize", "ResolveTrace", rr, ["X-RESOLVE"], xss="64m")
+    r3 = copy.deepcopy(rr)
+    i3 = next(i for i, r in enumerate(r3) if r.get("k") == "res" and r["after"]["names"])
+    k3 = sorted(r3[i3]["after"]["names"])[0]
+    r3[i3]["after"]["names"][k3] += "x"
+    expect_flag(ctx, "normalize", "ResolveTrace", r3, "X-RESOLVE", "a resolved name", xss="64m")
+    r4 = copy.deepcopy(rr)
+    r4[1]["groups"]["by_id"], r4[1]["users"]["by_id"] = r4[1]["users"]["by_id"], r4[1]["groups"]["by_id"]
+    expect_flag(ctx, "normalize", "ResolveTrace", r4, "X-RESOLVE", "the user and the group database swapped", xss="64m")
     recs = load(prefix + "0.ndjson")
     table = [r for r in recs if r.get("k") in ("meta", "norm")]
     evs = [r for r in recs if r.get("k") == "nev"][:60]
@@ -255,11 +266,11 @@ def st_normalize(ctx):
     expect_flag(ctx, "normalize", "NormalizeTrace", r1, "X-NORMALIZE", "the action of an event", xss="64m")
     r2 = copy.deepcopy(table + evs)
     j = next(j for j, r in enumerate(r2) if r.get("k") == "norm" and r["subject_primary"])
-    r2[j]["subject_primary"] = list(reversed(r2[j]["subject_primary"])) + ["pid"]
+    r2[j]["subject_primary"] = ["pid"] + r2[j]["subject_primary"]
     t = r2[j]["record_types"] + r2[j]["syscalls"]
     k = [r for r in recs if r.get("k") == "nev" and any(x["type"] in t or x["data"].get("syscall") in t for x in r["recs"])][:40]
     expect_flag(ctx, "normalize", "NormalizeTrace", [r for r in r2 if r.get("k") != "nev"] + k, "X-NORMALIZE",
-                "the order of an entry's subject_primary fields", xss="64m")
+                "the fields an entry looks for as subject_primary", xss="64m")
 
 
 FAMILIES = [("normalize", st_normalize), ("reassembler", st_reassembler), ("conc", st_conc), ("client", st_client), ("netlink", st_netlink), ("rule", st_rule),
